@@ -4,7 +4,8 @@
   scale estimators), Lemmas/DescWeighted.lean (weighted median / MAD / standard deviation),
   Lemmas/DescBiweight.lean (biweight location and midvariance) and Lemmas/Smoothing.lean.
 
-  Vocabulary.  A weighted sample is a list of pairs (value, weight); `shiftP c` / `scaleP k` add a constant
+  Vocabulary.  `ValidOrder o p`: `o` is a permutation of the row indices of `p` that sorts the values — all that is
+  known of `ndarray.argsort`.  A weighted sample is a list of pairs (value, weight); `shiftP c` / `scaleP k` add a constant
   to / rescale the values; `wBelow m p`, `wAbove m p` are the total weights of the values `< m`, `> m`;
   `totalW p` the total weight.  `order` is the permutation `argsort` returned (numpy's default sort is not
   stable, so the theorems hold for *every* permutation that sorts the values).  Estimators ending in a square
@@ -12,6 +13,7 @@
 -/
 import CnvVerif.Lemmas.Descriptives
 import CnvVerif.Lemmas.DescWeighted
+import CnvVerif.Lemmas.DescWeighted2
 import CnvVerif.Lemmas.DescBiweight
 import CnvVerif.Lemmas.Smoothing
 namespace CnvVerif.C19
@@ -106,10 +108,16 @@ theorem wmedian_in_range (order : List Nat) (p : List (Rat × Rat)) (hne : order
     lo ≤ weightedMedianCore false order p ∧ weightedMedianCore false order p ≤ hi :=
   weightedMedianCore_in_range order p hne hidx hw lo hi h
 
-theorem wmedian_translation (order : List Nat) (c : Rat) (p : List (Rat × Rat)) (hne : order ≠ [])
-    (hidx : ∀ i ∈ order, i < p.length) (hw : ∀ q ∈ p, 0 ≤ q.2) :
-    weightedMedianCore false order (shiftP c p) = weightedMedianCore false order p + c :=
-  weightedMedianCore_shift order c p hne hidx hw
+/-- moves with the data when a constant is added — whatever sorting permutations `argsort` returns before and after -/
+theorem wmedian_translation (o o' : List Nat) (p : List (Rat × Rat)) (c : Rat) (hp : p ≠ [])
+    (hw : ∀ q ∈ p, 0 ≤ q.2) (h : ValidOrder o p) (h' : ValidOrder o' (shiftP c p)) :
+    weightedMedianCore false o' (shiftP c p) = weightedMedianCore false o p + c :=
+  weightedMedianCore_shift_any_order o o' p c hp hw h h'
+
+/-- the order numpy's unstable sort gives to tied values is unobservable -/
+theorem wmedian_tie_order_unobservable (o o' : List Nat) (p : List (Rat × Rat)) (hw : ∀ q ∈ p, 0 ≤ q.2)
+    (h : ValidOrder o p) (h' : ValidOrder o' p) : weightedMedianCore false o p = weightedMedianCore false o' p :=
+  weightedMedianCore_order_independent o o' p hw h h'
 
 /-- before the repair (defect N): three equally weighted values 1, 2, 3 gave 3/2, with two thirds of the
     weight above it -/
@@ -176,13 +184,20 @@ theorem wmad_zero_on_constant (o1 o2 : List Nat) (p : List (Rat × Rat)) (hne1 :
     (hidx1 : ∀ i ∈ o1, i < p.length) (hidx2 : ∀ i ∈ o2, i < p.length) (hw : ∀ q ∈ p, 0 ≤ q.2)
     (c : Rat) (hc : ∀ q ∈ p, q.1 = c) : weightedMadCore false o1 o2 p = 0 :=
   weightedMadCore_const o1 o2 p true hne1 hne2 hidx1 hidx2 hw c hc
-theorem wmad_shift_invariant (o1 o2 : List Nat) (p : List (Rat × Rat)) (c : Rat) (hne1 : o1 ≠ [])
-    (hidx1 : ∀ i ∈ o1, i < p.length) (hw : ∀ q ∈ p, 0 ≤ q.2) :
-    weightedMadCore false o1 o2 (shiftP c p) = weightedMadCore false o1 o2 p :=
-  weightedMadCore_shift o1 o2 p true c hne1 hidx1 hw
-theorem wmad_proportional (o1 o2 : List Nat) (p : List (Rat × Rat)) (k : Rat) (hk : 0 ≤ k) :
-    weightedMadCore false o1 o2 (scaleP k p) = k * weightedMadCore false o1 o2 p :=
-  weightedMadCore_scale o1 o2 p true k hk
+theorem wmad_shift_invariant (o1 o2 o1' o2' : List Nat) (p : List (Rat × Rat)) (c : Rat) (hp : p ≠ [])
+    (hw : ∀ q ∈ p, 0 ≤ q.2)
+    (h1 : ValidOrder o1 p) (h2 : ValidOrder o2 (devP (weightedMedianCore false o1 p) p))
+    (h1' : ValidOrder o1' (shiftP c p))
+    (h2' : ValidOrder o2' (devP (weightedMedianCore false o1' (shiftP c p)) (shiftP c p))) :
+    weightedMadCore false o1' o2' (shiftP c p) = weightedMadCore false o1 o2 p :=
+  weightedMadCore_shift_any_order o1 o2 o1' o2' p true c hp hw h1 h2 h1' h2'
+theorem wmad_proportional (o1 o2 o1' o2' : List Nat) (p : List (Rat × Rat)) (k : Rat) (hk : 0 ≤ k)
+    (hw : ∀ q ∈ p, 0 ≤ q.2)
+    (h1 : ValidOrder o1 p) (h2 : ValidOrder o2 (devP (weightedMedianCore false o1 p) p))
+    (h1' : ValidOrder o1' (scaleP k p))
+    (h2' : ValidOrder o2' (devP (weightedMedianCore false o1' (scaleP k p)) (scaleP k p))) :
+    weightedMadCore false o1' o2' (scaleP k p) = k * weightedMadCore false o1 o2 p :=
+  weightedMadCore_scale_any_order o1 o2 o1' o2' p true k hk hw h1 h2 h1' h2'
 
 /-- a single value (after NaN removal) has scale 0: the `on_array(0)` / `on_weighted_array(0)` decorators -/
 theorem scale_of_single_value_is_zero (f : List Rat → Option Rat) (g : List (Rat × Rat) → Option Rat) (x w : Rat) :
@@ -255,6 +270,7 @@ example : width2wing 1000 6 = .ok 3 := by decide +kernel
 example : width2wing 3 1 = .error .assertionError := by decide +kernel
 example : [0, 1, 2].Perm (List.range [((1 : Rat), (1 : Rat)), (2, 1), (3, 1)].length) := by decide
 example : SortedByValue (permute [0, 1, 2] [((1 : Rat), (1 : Rat)), (2, 1), (3, 1)]) := by decide +kernel
+example : ValidOrder [1, 3, 0, 2] [((3 : Rat), (0 : Rat)), (1, 1), (4, 2), (2, 1)] := ⟨by decide, by decide +kernel⟩
 example : weightedMedianCore false [0, 1, 2] [(1, 1), (2, 1), (3, 1)] = 2 := by decide +kernel
 example : weightedMedianCore false [1, 3, 0, 2] [(3, 0), (1, 1), (4, 2), (2, 1)] = 3 := by decide +kernel
 example : rollingMedian [5] 3 = .ok [5] := by decide +kernel
